@@ -49,6 +49,9 @@ type schedule struct {
 	// Corpus: the index keeps its in-memory corpus (as under perkeepd's search handler); lookups made
 	// while indexing (blob meta, deletions, signer ids) are then answered by the corpus, not by the rows.
 	Corpus bool
+	// PackedSource: the index reads blobs (signing keys, delete targets, file chunks, static sets) from a
+	// blobpacked storage, as under the default server configuration, instead of a plain fetcher.
+	PackedSource bool
 }
 
 func (s *schedule) String() string {
@@ -56,6 +59,9 @@ func (s *schedule) String() string {
 	sb.WriteString(s.Class + ":")
 	if s.Corpus {
 		sb.WriteString("(with corpus)")
+	}
+	if s.PackedSource {
+		sb.WriteString("(blob source: blobpacked)")
 	}
 	for _, p := range s.Phases {
 		sb.WriteString("[")
@@ -152,6 +158,7 @@ func drawSchedule(t *rapid.T, w *vworld.World, arriving []int) *schedule {
 	storage := rapid.SampledFrom([]string{"coupled", "coupled", "first", "mixed"}).Draw(t, "storage")
 	s := &schedule{Class: orderClass + "/" + storage + "/" + mode}
 	s.Corpus = rapid.IntRange(0, 2).Draw(t, "withCorpus") == 0
+	s.PackedSource = rapid.IntRange(0, 3).Draw(t, "packedSource") == 0
 
 	// sequential event list
 	var ev []event
@@ -264,6 +271,11 @@ func run(w *vworld.World, s *schedule) outcome {
 		return outcome{err: err}
 	}
 	defer e.Release()
+	if s.PackedSource {
+		if err := e.UsePackedSource(); err != nil {
+			return outcome{err: fmt.Errorf("harness: blobpacked source: %v", err)}
+		}
+	}
 	if s.Corpus {
 		if _, err := e.Ix.KeepInMemory(); err != nil {
 			return outcome{err: fmt.Errorf("KeepInMemory: %v", err)}
@@ -385,6 +397,9 @@ func label(w *world, s *schedule) {
 	evid.R.Label("schedule/" + s.Class)
 	if s.Corpus {
 		evid.R.Label("schedule/index-with-in-memory-corpus")
+	}
+	if s.PackedSource {
+		evid.R.Label("schedule/blob-source-is-blobpacked")
 	}
 }
 
